@@ -58,7 +58,7 @@ package larking
 //@      : out[EL(msg,j)] == msg[j]
 //@ spec Enc(out, msg) = len(out) == EL(msg, len(msg)) && (forall j :: 0 <= j && j < len(msg) ==> EncAt(out, msg, j))
 
-//@ func encodeGrpcMessage serves C05
+//@ func encodeGrpcMessage serves C05 C10
 //@   ensures [encoding] Enc(result, msg)
 //@   oracle result == verifEncodeGrpcMessage(msg)
 //@   loop 1 invariant 0 <= pos && pos <= i && i <= len(msg)
@@ -477,6 +477,14 @@ package larking
 // C03, the part that is larking's own: every arm of the kind switch builds the value with
 // the constructor of that kind (a mismatch is a panic in Set or a silently different
 // value), after decoding the text with a decoder of the field's own width.
+// A text value from the URL that is not already a JSON string (it neither starts nor ends with a
+// quote character) is quoted, whole, before the JSON decoder sees it (C03: string-like well-known
+// types are converted "exactly as their proto3 JSON text form would be").
+//@ func quote serves C03 C09 partial ghost count post index slice
+//@   count quotes `strconv.AppendQuote(`
+//@   ensures [a-bare-text-value-is-quoted C03] len(old(raw)) > 0 && old(raw)[0] != '"' && old(raw)[len(old(raw))-1] != '"' ==> quotes == 1
+//@   ensures [an-empty-value-stays-empty C03] len(old(raw)) == 0 ==> quotes == 0 && len(result) == 0
+//@   assert atcall `strconv.AppendQuote(` [the-whole-text-is-quoted C03] len(arg1) == len(raw) && (forall k :: 0 <= k && k < len(raw) ==> arg1[k] == raw[k])
 //@ func parseParam serves C01 C09 C03 trusted pure partial conv div index ghost
 //@   assert atcall `protoreflect.ValueOfBool(` [bool-values-only-for-bool-fields C03] kind == protoreflect.BoolKind
 //@   assert atcall `protoreflect.ValueOfInt32(` [int32-values-only-for-int32-fields C03] kind == protoreflect.Int32Kind || kind == protoreflect.Sint32Kind || kind == protoreflect.Sfixed32Kind
@@ -657,6 +665,10 @@ package larking
 //@   requires m != nil && w != nil && r != nil
 //@   returns (rerr)
 //@   ensures [an-error-return-leaves-no-compressor-pending C04 C05] at "return err" zc == nil
+//@   assert at "herr := hd.handler(&m.opts, stream)" #2 [a-request-body-is-read-whatever-announces-it C03] (r.ContentLength > 0 || r.ContentLength == -1) ==> stream#2.hasBody
+//@   assert at "herr := hd.handler(&m.opts, stream)" #2 [no-body-is-read-from-an-empty-request C03] r.ContentLength == 0 ==> !stream#2.hasBody
+//@   count zcloses `zc.Close(`
+//@   ensures [a-compressor-closed-by-the-body-is-not-closed-again-on-the-way-out C13] at every return zcloses >= 1 ==> zc == nil
 //@   count loads `m.loadState(`
 //@   count begins `sh.HandleRPC(ctx, &stats.Begin{`
 //@   count ends `sh.HandleRPC(ctx, &stats.End{`
@@ -740,12 +752,20 @@ package larking
 // own slicing, allocation, conversion, nil and size obligations; the calls into
 // codecs, compressors, sync and stats are abstracted and listed).
 //@ func (*streamGRPC).isDone trusted pure
-//@ func (*streamGRPC).decompress trusted
+// (contracts assumed at call sites; the bodies are checked for what is handed to the
+// compressor: the whole frame goes in and everything the decompressor yields is kept -
+// a message beyond the limit is refused by the caller's size check, never cut short, C08)
+//@ func (*streamGRPC).decompress serves C08 C06 trusted partial ghost
 //@   requires s != nil && s.comp != nil
 //@   modifies G$buf.
-//@ func (*streamGRPC).compress trusted
+//@   assert atcall `bytes.NewReader(` [the-whole-frame-is-decompressed C08 C06] same(arg0, b)
+//@   assert atcall `s.comp.Decompress(` [the-frame-reader-is-what-is-decompressed C08 C06] pay(arg0) == src
+//@   assert atcall `dst.ReadFrom(` [everything-the-decompressor-yields-is-kept C08 C06] arg1 == r && arg0 == dst
+//@ func (*streamGRPC).compress serves C08 C06 C04 trusted partial ghost
 //@   requires s != nil && s.comp != nil
 //@   modifies G$buf.
+//@   assert atcall `s.comp.Compress(` [the-reply-is-compressed-into-the-callers-buffer C06 C04] pay(arg0) == dst
+//@   assert atcall `w.Write(` [the-whole-reply-is-compressed C06 C04] same(arg0, b)
 // (contract assumed at call sites; the body is checked for nil dereferences:
 // the stats block must not change what a request does, C18)
 //@ func (*streamGRPC).SendHeader serves C18 C09 trusted partial nil
@@ -990,8 +1010,8 @@ package larking
 //@   assert atcall `s.removeHandler(` [writer-mutates-its-own-copy C12] s != nil && isfresh(s)
 //@   count locks `m.mu.Lock(`
 //@   count unlocks `m.mu.Unlock(`
-//@   assert atcall `m.loadState(` [snapshot-cloned-under-lock C12] locks == 1 && unlocks == 0
-//@   assert atcall `m.storeState(` [published-under-lock C12] locks == 1 && unlocks == 0
+//@   assert atcall `m.loadState(` [snapshot-cloned-under-lock C12 C11] locks == 1 && unlocks == 0
+//@   assert atcall `m.storeState(` [published-under-lock C12 C11] locks == 1 && unlocks == 0
 //@   count stores `m.storeState(`
 //@   witness verifWitnessDropConn
 //@   ensures [dropped-state-published C11] ok ==> stores == 1
@@ -1003,8 +1023,8 @@ package larking
 //@   assert atcall `s.appendHandler(` [writer-mutates-its-own-copy C12] s != nil && isfresh(s)
 //@   count locks `m.mu.Lock(`
 //@   count unlocks `m.mu.Unlock(`
-//@   assert atcall `m.loadState(` [snapshot-cloned-under-lock C12] locks == 1 && unlocks == 0
-//@   assert atcall `m.storeState(` [published-under-lock C12] locks == 1 && unlocks == 0
+//@   assert atcall `m.loadState(` [snapshot-cloned-under-lock C12 C11] locks == 1 && unlocks == 0
+//@   assert atcall `m.storeState(` [published-under-lock C12 C11] locks == 1 && unlocks == 0
 //@   count stores `m.storeState(`
 //@   ensures [store-on-success-only C12 C16] (err == nil ==> stores == 1) && (err != nil ==> stores == 0)
 
@@ -1014,8 +1034,8 @@ package larking
 //@   assert atcall `s.addConnHandler(` [writer-mutates-its-own-copy C12] s != nil && isfresh(s)
 //@   count locks `m.mu.Lock(`
 //@   count unlocks `m.mu.Unlock(`
-//@   assert atcall `m.loadState(` [snapshot-cloned-under-lock C12] locks == 1 && unlocks == 0
-//@   assert atcall `m.storeState(` [published-under-lock C12] locks == 1 && unlocks == 0
+//@   assert atcall `m.loadState(` [snapshot-cloned-under-lock C12 C11] locks == 1 && unlocks == 0
+//@   assert atcall `m.storeState(` [published-under-lock C12 C11] locks == 1 && unlocks == 0
 //@   count stores `m.storeState(`
 //@   ensures [at-most-one-store C12] stores <= 1
 //@   ensures [failed-registration-changes-nothing C12] at "return err" stores == 0
@@ -1247,7 +1267,8 @@ package larking
 // http.go, per message: the body / response_body selectors stored in the method
 // at registration are walkable (AllSingular, proved in addRule), so applying them
 // never panics; a stats handler sees one payload event per message.
-//@ func (*streamHTTP).decodeRequestArgs serves C09 C18 C16 partial pre[protoreflect inv.init inv.keep post index make slice
+//@ func (*streamHTTP).decodeRequestArgs serves C09 C18 C16 partial pre[protoreflect inv.init inv.keep post index make slice ghost
+//@   assert atcall `protoreflect.ValueOfBytes(` [http-body-data-does-not-live-in-the-pooled-buffer C13] len(arg0) == len(b) && (len(b) > 0 ==> base(arg0) != base(b))
 //@   returns (count, err)
 //@   requires s != nil && s.method != nil && AllSingular(s.method.body) && args != nil
 //@   count payloadEvents `stats.HandleRPC(`
@@ -1487,10 +1508,21 @@ package larking
 // methods, established by Decompress / Compress).
 //@ func (*gzipReader).Read serves C13 partial ghost post nil
 //@   returns (n, err)
-//@   requires z != nil && z.pool != nil && z.Reader != nil
+//@   requires z != nil && z.pool != nil
 //@   requires z.Reader != nil ==> gf(z.Reader, "pooled") == 0
 //@   assert atcall `z.Reader.Read(` [a-reader-in-the-pool-is-not-read C13] z.Reader != nil ==> gf(z.Reader, "pooled") == 0
-//@   assert at "z.pool.Put(z)" [a-reader-is-handed-back-at-most-once C13] z.Reader != nil && gf(z.Reader, "pooled") == 0
-//@   ghost at "z.pool.Put(z)" set gf(z.Reader, "pooled") = 1
+//@   assert at "z.pool.Put(&gzipReader{Reader: z.Reader, pool: z.pool})" [a-reader-is-handed-back-at-most-once C13] z.Reader != nil && gf(z.Reader, "pooled") == 0
+//@   ghost at "z.pool.Put(&gzipReader{Reader: z.Reader, pool: z.pool})" set gf(z.Reader, "pooled") = 1
+//@   assert atcall `z.pool.Put(` [what-goes-back-is-the-reader-under-a-wrapper-of-its-own C13] ptr(pay(arg1), "gzipReader") != z && ptr(pay(arg1), "gzipReader").Reader == z.Reader
 //@   ensures [a-request-keeps-no-reader-that-is-in-the-pool C13] at every return z.Reader != nil ==> gf(z.Reader, "pooled") == 0
 //@   witness verifWitnessPooledReaderOnce
+
+// ---------------------------------------------------------------------------
+// log.go: the context interceptors (C18: "the interceptor sees the method name
+// and the correct streaming flags"): what NewStreamContext / NewUnaryContext hand
+// to the user's context function is the call's own name and shape.
+//@ func (logStream).Context serves C18 partial ghost
+//@   assert atcall `s.ctxFn(` [the-context-function-sees-the-streams-own-name-and-flags C18] arg1 == s.info.FullMethod && arg2 == s.info.IsClientStream && arg3 == s.info.IsServerStream
+//@ func NewUnaryContext$1 serves C18 partial ghost
+//@   assert atcall `ctxFn(` [the-context-function-sees-the-unary-calls-own-name C18] arg1 == info.FullMethod && !arg2 && !arg3
+//@   assert atcall `handler(` [the-handler-runs-in-the-new-context-with-the-request C18] arg0 == ctx && same(arg1, req)
